@@ -6,6 +6,32 @@
 #include <stdlib.h>
 #include <string.h>
 #include <sys/types.h>
+#include <dlfcn.h>
+#include <fcntl.h>
+#include <unistd.h>
+
+/* getenv(): answers from the real environment and appends the queried name to $CG_ENV_LOG, so
+ * that the harness knows exactly which environment variables the process consults (CG_* names,
+ * the shim's own, are not logged). */
+static char *(*real_getenv)(const char *);
+char *getenv(const char *name) {
+    if (!real_getenv) real_getenv = (char *(*)(const char *))dlsym(RTLD_NEXT, "getenv");
+    if (!real_getenv) return NULL;
+    char *v = real_getenv(name);
+    if (name && strncmp(name, "CG_", 3) != 0) {
+        const char *log = real_getenv("CG_ENV_LOG");
+        if (log) {
+            int fd = open(log, O_WRONLY | O_APPEND | O_CREAT, 0644);
+            if (fd >= 0) {
+                ssize_t r = write(fd, name, strlen(name));
+                r = write(fd, "\n", 1);
+                (void)r;
+                close(fd);
+            }
+        }
+    }
+    return v;
+}
 
 static void fill(unsigned char *buf, size_t len) {
     const char *s = getenv("CG_SEED");
